@@ -346,7 +346,7 @@ func clip(b []byte) string {
 
 // ---------------------------------------------------------------- generator
 
-var strPieces = []string{`"`, `\`, "\n", "\x00", "\x1f", "é", "日本", "\xff", "\xc3", "<", "&", "a", " ", "{", "}", `{"code":0}`, " "}
+var strPieces = []string{`\u0026`, `\u003c`, `\u003e`, `\u2028`, `\n`, `"`, `\`, "\n", "\x00", "\x1f", "é", "日本", "\xff", "\xc3", "<", "&", "a", " ", "{", "}", `{"code":0}`, " "}
 
 func genStr(t *rapid.T) []byte {
 	n := rapid.IntRange(0, 6).Draw(t, "sn")
